@@ -31,6 +31,19 @@ MODELS = {
                  ['offsets', 'trec']),
 }
 SAME_SHAPE = {('WASABITI', 'trec'): 'offsets'}
+# attributes documented as per-voxel sequence parameters ("broadcasted starting from the front"): need unsqueeze_right
+SEQ_PARAMS = {'TransientSteadyStateWithPreparation': ['delay_after_preparation', 'm0_scaling_preparation', 'repetition_time']}
+RESHAPE = Path(os.environ.get('VERIF_REPO', '/repo')) / 'src/mrpro/utils/reshape.py'
+
+
+def check_unsqueeze_right():
+    tree = ast.parse(RESHAPE.read_text())
+    fn = next((n for n in tree.body if isinstance(n, ast.FunctionDef) and n.name == 'unsqueeze_right'), None)
+    if fn is None or [a.arg for a in fn.args.args] != ['x', 'n']:
+        raise Unsupported('utils.reshape.unsqueeze_right(x, n) not found')
+    body = [s for s in fn.body if not (isinstance(s, ast.Expr) and isinstance(s.value, ast.Constant))]
+    if len(body) != 1 or ast.unparse(body[0]) not in ('return x.reshape((*x.shape, *n * (1,)))', 'return x.reshape((*x.shape, *(n * (1,))))'):
+        raise Unsupported('unsqueeze_right is not `return x.reshape((*x.shape, *(n * (1,))))`')
 N_OBLIGATIONS = sum(1 + len(m[3]) for m in MODELS.values())
 
 _KEYWORDS = {'as', 'at', 'cofix', 'else', 'end', 'exists', 'fix', 'for', 'forall', 'fun', 'if', 'in', 'let', 'match', 'mod',
@@ -237,6 +250,10 @@ def translate_class(cls_name: str):
         if at in timelike:
             out += [f'Lemma {d}_ok : forall ashape pshape, {d} ashape pshape = unsqueeze_right ashape (length pshape - (length ashape - 1))%nat.',
                     'Proof. intros. reflexivity. Qed.']
+        elif cnt is None and at in SEQ_PARAMS.get(cls_name, []):
+            # documented as broadcast from the front: the obligation below fails unless it is unsqueezed on the right
+            out += [f'Lemma {d}_ok : forall ashape pshape, {d} ashape pshape = seqparam_shape ashape pshape.',
+                    'Proof. intros. reflexivity. Qed.']
         elif cnt is None:
             out += [f'Lemma {d}_ok : forall pshape, {d} [] pshape = [].  (* scalar attribute, broadcasts with everything *)',
                     'Proof. intros. reflexivity. Qed.']
@@ -266,6 +283,7 @@ Ltac close := first [ reflexivity | solve [unfold Rdiv, Rminus; ring] | solve [n
 
 
 def translate() -> str:
+    check_unsqueeze_right()
     parts = [HEADER.format(root=ROOT)]
     for cls in MODELS:
         text, used = translate_class(cls)
